@@ -321,3 +321,21 @@ for t_, o_, n_ in ((0x15, 0x25, 32), (0x15, 0x35, 64), (0x15, 0x95, 256)):
 O("C11.eject", "C11", "h_C11.c", "h_C11_eject",
   "_eject_task1: unknown task -> failure; another user's task -> failure, task stays scheduled; own task -> stopped and removed; no other task touched",
   ["_eject_task1", "free_task", "get_task"], kind="bounded", bound="table of 16 slots", **E11)
+
+# ------------------------------------------------------------------ C06
+P("C06", level="proof",
+  level_text="The system-call protocol of a checkpoint on the real echsd.c (chkpnt1, chkpnt) against a ghost file system in which every call may fail: the live per-user queue file is never opened for writing, truncated or unlinked; its only mutation is one rename from that user's temporary file, made only after header, exactly the user's tasks and footer were written and close() succeeded; failures are reported and the temporary removed. Since a crash acts between system calls and rename is atomic this invariant is torn-freedom at every crash point. chkpnt() checkpoints every noted user (witness) or falls back to the full dump when the note array is full. A failing write inside the serialiser is not noticed (known finding, carved out).",
+  level_note="Trusted: kernel atomicity of renameat and per-syscall crash granularity; the ghost file system stubs; the serialiser (evical.c echs_icalify_*) represented by stubs that may lose a write. Bounded: task table of 4 slots in the chkpnt1 obligation. Not covered: fsync/power loss, that a reload yields the same tasks (text round trip), chkpnta's internals, cmd_ical's noting of users.",
+  not_covered=["durability (fsync, directory)", "reload equivalence (needs the text round trip of C05)", "chkpnta internals (nedtrie)", "cmd_ical: which requests note a user"])
+E06 = dict(solver=["minisat", "kissat"], timeout={"quick": 600, "thorough": 1800}, unwind=6, replay=False, replay_note="ghost file system stubs use nondet failures")
+O("C06.chkpnt1", "C06", "h_C06.c", "h_C06_chkpnt1",
+  "chkpnt1 with every system call allowed to fail (no write failure inside the serialiser): live file only ever replaced by one rename from the complete, closed temporary holding exactly the user's tasks; failure reported and temporary removed otherwise",
+  ["chkpnt1"], kind="bounded", bound="task table of 4 slots", **E06)
+O("C06.chkpnt1.writefail", "C06", "h_C06.c", "h_C06_chkpnt1",
+  "chkpnt1 when a write inside the serialiser fails (region of known finding KF-C06-write-failure)",
+  ["chkpnt1"], kind="bounded", bound="task table of 4 slots", defines=["-DREGION_WRITE_FAILED"], finding="KF-C06-write-failure", **E06)
+O("C06.chkpnt", ["C06", "C11"], "h_C06.c", "h_C06_chkpnt",
+  "chkpnt(): every user noted since the last checkpoint is checkpointed once (witness user); when the 16-entry note array is full the full dump runs instead; the note set is cleared",
+  ["chkpnt"], dfcc=True, replace=["chkpnt1", "chkpnta"],
+  replace_status={"chkpnt1": "counting contract here; protocol discharged by C06.chkpnt1", "chkpnta": "counting contract (internals not covered)"},
+  solver=["minisat", "kissat"], timeout={"quick": 600, "thorough": 1800}, unwind=18, replay=False, replay_note="callees replaced by contracts")
